@@ -18,7 +18,15 @@ def _load(pid):
 
 # property -> harness names whose FIRST quick configuration is re-run here (None = all harnesses of that property)
 PICK = {
- 'C03': None,
+ 'C03': ['reshape3', 'flatten3', 'transpose3', 'moveaxis3_list', 'swapaxes3', 'expand_dims2', 'squeeze3', 'atleast_nd2', 'flip3_list'],
+ 'C04': ['tile', 'repeat', 'repeat_each', 'roll', 'roll_axes', 'take', 'concatenate', 'stack', 'pad', 'sliding_axis', 'tril', 'diagonal', 'expand', 'resize', 'compress', 'where', 'split'],
+ 'C05': ['view1', 'viewfam', 'viewdyn'],
+ 'C06': ['vbt', 'vba'],
+ 'C07': ['sub_21', 'sub_2s', 'where_122', 'outer_sub_21'],
+ 'C08': ['rsub_axis', 'radd_axes2', 'asub_axis'],
+ 'C10': ['ev_transpose_col', 'ev_reshape_old', 'ev_slice_old', 'ev_sum_row', 'ev_tile_old4', 'ev_pad_old4', 'ev_flip_transpose_old', 'ev_transpose_flip_slice_old', 'out_transpose_row', 'out_invert_old'],
+ 'C12': ['tight_avx', 'tight_sse', 'tight_v256', 'binary2_avx', 'reduce2_avx'],
+ 'C13': ['th_transpose', 'th_add', 'thd_transpose'],
 }
 KERNELS = {}
 HARNESSES = []
@@ -30,8 +38,18 @@ for _pid, _names in PICK.items():
     KERNELS.update(_m.KERNELS)
     for _h in _m.HARNESSES:
         if _names is not None and _h['name'] not in _names: continue
-        _h2 = copy.deepcopy(_h); _h2['name'] = _pid + '.' + _h['name']
-        _h2['quick'] = (_h.get('quick') or [{}])[:1]; _h2['thorough'] = (_h.get('quick') or [{}])
+        _h2 = copy.deepcopy(_h); _h2['name'] = _pid + '.' + _h['name']; _h2['finding_pid'] = _pid; _h2['finding_harness'] = _h['name']
+        if not _h.get('quick'): continue
+        _h2['quick'] = _h['quick'][:1]; _h2['thorough'] = _h['quick']
         _h2['bounds'] = '[from %s] %s' % (_pid, _h.get('bounds', ''))
         HARNESSES.append(_h2)
 OUTSIDE = ['compositions other than the listed programs', 'device back ends', 'SIMD contexts other than those of C12']
+
+ASSUMPTIONS = ['every query carries CBMC pointer/bounds obligations on all translated loads/stores plus the NMTOOLS_VERIF hook obligations (see module docstring)',
+               'known findings of the source properties are excluded exactly as in those properties (matched through finding_pid / finding_harness)']
+CLAIM = dict(
+ text='Cross-section of %d harnesses from C03-C08, C10, C12, C13: for every accepted symbolic argument and a symbolic element index inside the reported shape (and for eval into inferred and '
+      'caller-supplied outputs, SIMD packed loads/stores and tails on exact-size buffers, the per-thread device step), the solver shows that no load or store of the encoded nmtools code leaves its '
+      'object or inner array, no bounded/utl vector is indexed at or beyond its logical size, every flat offset is below size() and every axis index below its extent in base_ndarray_t::operator(), '
+      'no bounded container refuses a resize/push_back, and the evaluator never returns early on a shape mismatch.' % len(HARNESSES),
+ note='Bounded as the source harnesses (dim <= 3/4, extents <= 3, listed compositions only). std::array / std::vector element access is covered by CBMC object bounds only (no logical-extent hook in std containers).')
